@@ -65,6 +65,11 @@ def _iterable(spec, vec=None):
         return range(len(items)) if False else iter(items)
     if kind == "str":
         return "".join(items)
+    if kind == "vector":
+        # another Vector (homogeneous by construction, possibly of a different value type)
+        from nitypes.vector import Vector
+        t = type(items[0]) if items else int
+        return Vector(items, value_type=t)
     if kind == "self":
         return vec
     if kind == "notiter":
@@ -75,6 +80,11 @@ def _iterable(spec, vec=None):
 def _idx(i):
     if i[0] == "int":
         return i[1]
+    if i[0] == "bool":          # a bool is an int: list index 1 / 0
+        return bool(i[1])
+    if i[0] == "np":            # an index object with __index__
+        import numpy as np
+        return np.int64(i[1])
     if i[0] == "slice":
         return slice(i[1], i[2], i[3])
     return "x"
@@ -232,6 +242,10 @@ def _onec(v):
 def _idxc(i):
     if i[0] == "int":
         return "(XInt %s)" % vf.zc(i[1])
+    if i[0] == "bool":
+        return "(XInt %d)" % int(i[1])
+    if i[0] == "np":
+        return "(XInt %s)" % vf.zc(i[1])
     if i[0] == "slice":
         return "(XSlice %s %s %s)" % (vf.optc(i[1]), vf.optc(i[2]), vf.optc(i[3]))
     return "XBad"
@@ -350,6 +364,8 @@ def _rand_op(rng, t, n):
     ri = lambda: rng.choice([None, None] + list(range(-n - 2, n + 3)))
     if k in ("get", "del"):
         m = rng.random()
+        if m < 0.08:
+            return {"op": k, "idx": rng.choice([["bool", rng.random() < 0.5], ["np", rng.randrange(-n - 1, n + 2)]])}
         if m < 0.45:
             return {"op": k, "idx": ["int", rng.randrange(-n - 2, n + 3)]}
         if m < 0.93:
@@ -359,13 +375,23 @@ def _rand_op(rng, t, n):
     if k == "set":
         m = rng.random()
         idx = ["int", rng.randrange(-n - 2, n + 3)] if m < 0.88 else ["bad"] if m < 0.94 else ["slice", None, None, None]
+        if m < 0.15:
+            idx = rng.choice([["bool", rng.random() < 0.5], ["np", rng.randrange(-n - 1, n + 2)], ["np", rng.randrange(0, n + 1)]])
         return {"op": k, "idx": idx, "v": one() if idx[0] != "slice" else _any_val(rng, t)}
-    itk = lambda: rng.choice(["list", "list", "tuple", "gen", "iter", "self", "notiter"] + (["str"] if t == "TStr" else []))
+    itk = lambda: rng.choice(["list", "list", "tuple", "gen", "iter", "self", "notiter", "vector", "vector"] + (["str"] if t == "TStr" else []))
+
+    def homog(items):
+        """items for a source Vector: one value type (the receiver's, or for bool receivers often int: True/False vs 0/1/7)"""
+        t2 = rng.choice([t, t, "TInt" if t == "TBool" else t, rng.choice(["TBool", "TInt", "TFloat", "TStr"])])
+        return [_val_of(rng, t2) if not (t2 == "TInt") else ["i", rng.choice([0, 1, 7, -1, 2])] for _ in items]
+
     if k == "setslice":
         kind = itk()
         items = [_any_val(rng, t) for _ in range(rng.choice([0, 1, 1, 2, 3, n, n + 1]))]
         if kind == "str":
             items = [["s", rng.choice([1, 2])] for _ in items]
+        if kind == "vector":
+            items = homog(items)
         return {"op": k, "a": ri(), "b": ri(), "c": rng.choice([None, None, None, 1, -1, 2, -2, 3, 0]), "vs": [kind, items]}
     if k == "insert":
         return {"op": k, "i": rng.choice(list(range(-n - 3, n + 4)) + ["bad"]), "v": one()}
@@ -378,6 +404,8 @@ def _rand_op(rng, t, n):
         items = [_any_val(rng, t) for _ in range(rng.choice([0, 1, 2, 3]))]
         if kind == "str":
             items = [["s", rng.choice([1, 2])] for _ in items]
+        if kind == "vector":
+            items = homog(items)
         return {"op": k, "vs": [kind, items]}
     if k == "pop":
         return {"op": k, "i": None if rng.random() < 0.4 else rng.randrange(-n - 2, n + 3)}
